@@ -37,8 +37,9 @@ Next == UNCHANGED c
 Op == [name |-> "mark_heads_by_rules", relc |-> <<>>, bare |-> FALSE, pos |-> 0, preset |-> c.preset,
        rules |-> RulesTab[c.preset], keep |-> <<>>, flags |-> {}, rows |-> <<>>, fop |-> "~", fval |-> 0]
 InvRef == C15(Op, c.tree, RuleMarkHeads(c.tree, RulesTab[c.preset])) = {}
+OpRec(preset) == [name |-> "mark_heads_by_rules", relc |-> <<>>, bare |-> FALSE, pos |-> 0, preset |-> preset,
+                  keep |-> <<>>, flags |-> {}, rows |-> <<>>, fop |-> "~", fval |-> 0]
+\* the other preset first, then the case's own: a result must not depend on earlier calls (C18 meets C15)
 Emit == PrintT("CASE " \o ToJson([tree |-> c.tree,
-           ops |-> << [name |-> "mark_heads_by_rules", relc |-> <<>>, bare |-> FALSE, pos |-> 0,
-                       preset |-> c.preset, keep |-> <<>>, flags |-> {}, rows |-> <<>>,
-                       fop |-> "~", fval |-> 0] >>]))
+           ops |-> << OpRec(IF c.preset = "negra" THEN "ptb" ELSE "negra"), OpRec(c.preset) >>]))
 =============================================================================
